@@ -83,16 +83,40 @@ _INV_TICK = round(1.0 / TICK)
 assert _INV_TICK * TICK == 1.0
 
 
+class _Unreadable(Exception):
+    """the budget's private state is no longer a sequence of grant times"""
+
+
+UNREADABLE = [False]        # set when some Budget's private state could not be read in this process
+
+
 def _ticks(events):
     """deque of float seconds on the grid -> list of int ticks (exactness checked)"""
     out = []
     for e in events:
+        if isinstance(e, bool) or not isinstance(e, (int, float)):
+            # the private representation changed: fall back to what a caller can observe (consume / remaining
+            # results); the deque comparison is dropped and reported once as a broken correspondence
+            UNREADABLE[0] = True
+            raise _Unreadable(repr(e)[:80])
         x = e * _INV_TICK
         k = int(x)
         if k != x:
             raise AssertionError(f"deque entry {e!r} is off the tick grid")
         out.append(k)
     return out
+
+
+def _safe_ticks(b):
+    try:
+        return _ticks(b._events)
+    except (_Unreadable, AttributeError, TypeError):
+        UNREADABLE[0] = True
+        return ["?"]
+
+
+def _strip_events(line: str) -> str:
+    return line.split(" events=")[0]
 
 
 def run_impl(case, clock: VClock, want_rows: bool = True) -> ImplRun:
@@ -120,14 +144,14 @@ def run_impl(case, clock: VClock, want_rows: bool = True) -> ImplRun:
                 ok = b.consume(cost)
             except ValueError:
                 lines.append("reject")
-                if list(b._events) != [e * TICK for e in before]:
+                if "?" not in before and list(b._events) != [e * TICK for e in before]:
                     raise AssertionError("rejected consume touched the deque")
                 if want_rows:
                     rows.append(("c", now, cost, None, before, before))
                 continue
             if ok is not True and ok is not False:
                 raise AssertionError(f"consume returned {ok!r}")
-            ev = _ticks(b._events)
+            ev = _safe_ticks(b)
             lines.append(f"granted {1 if ok else 0} events={_ev_tok(ev)}")
             log.append(f"c,{now},{cost},{1 if ok else 0}")
             if want_rows:
@@ -136,7 +160,7 @@ def run_impl(case, clock: VClock, want_rows: bool = True) -> ImplRun:
             n = b.remaining()
             if type(n) is not int:
                 raise AssertionError(f"remaining returned {n!r}")
-            ev = _ticks(b._events)
+            ev = _safe_ticks(b)
             lines.append(f"remaining {n} events={_ev_tok(ev)}")
             log.append(f"r,{now},{n}")
             if want_rows:
@@ -258,6 +282,15 @@ def check_batch(cases, clock, stats=None, spec_all=True):
         n = len(r.lines)
         per_case.append(model[k:k + n])
         k += n
+    if UNREADABLE[0]:
+        # compare observable results only; hand the spec predicates the model's final deque
+        for r, ml in zip(impls, per_case):
+            if any("events=?" in ln for ln in r.lines):
+                r.lines[:] = [_strip_events(ln) for ln in r.lines]
+                last = next((m for m in reversed(ml) if " events=" in m), None)
+                tok = last.split(" events=")[1] if last else "-"
+                r.events = [] if tok == "-" else [int(x) for x in tok.split(",")]
+                ml[:] = [_strip_events(m) for m in ml]
     # spec lines on the implementation's logs
     need = []
     for i, (c, r) in enumerate(zip(cases, impls)):
@@ -699,6 +732,12 @@ def run(tier: str, seed: int) -> dict:
             seen.add(sf["sig"])
             failures.append(make_failure(small, sf, clock))
 
+    if UNREADABLE[0]:
+        failures.append({"property": "C10", "kind": "divergence",
+                         "sig": "budget-ops/private-state-unreadable",
+                         "detail": "Budget._events is no longer a sequence of grant times: the deque comparison was dropped, "
+                                   "only consume()/remaining() results were compared with the model",
+                         "replay": "# Budget._events could not be read as a sequence of numbers\n"})
     dist = stats.as_dict()
     dist.update(dist_extra)
     dist["spec_lines_evaluated_on_impl_logs"] = spec_lines
